@@ -60,12 +60,12 @@ var globalSubst = map[string]string{
 
 // Import substitutions applied only in the packages that own a network seam.
 var netPkgs = map[string]bool{
-	modPath + "/connection":               true,
-	modPath + "/manager":                  true,
-	modPath + "/client/gnmi":              true,
-	modPath + "/cmd/gnmi_collector":       true,
-	modPath + "/cmd/gnmi_cli":             true,
-	modPath + "/testing/fake/gnmi":        true,
+	modPath + "/connection":                       true,
+	modPath + "/manager":                          true,
+	modPath + "/client/gnmi":                      true,
+	modPath + "/cmd/gnmi_collector":               true,
+	modPath + "/cmd/gnmi_cli":                     true,
+	modPath + "/testing/fake/gnmi":                true,
 	modPath + "/testing/fake/testing/grpc/config": true,
 }
 
@@ -390,6 +390,8 @@ func (fc *fileCtx) rewrite() {
 			}
 		case *ast.SelectStmt:
 			fc.rewriteSelect(c, n)
+		case *ast.AssignStmt:
+			fc.rewriteMapAssign(c, n)
 		case *ast.GoStmt:
 			fc.rewriteGo(c, n)
 		case *ast.RangeStmt:
@@ -567,6 +569,45 @@ func (fc *fileCtx) rewriteGo(c *astutil.Cursor, n *ast.GoStmt) {
 		c.Replace(&ast.BlockStmt{List: stmts})
 	}
 	count("go")
+}
+
+// rewriteMapAssign inserts simrt.RegKey(k) before `m[k] = v` when m's key type
+// has no natural order (pointer, interface, struct...): iteration order of
+// such maps is the order of insertion (see simrt.RegKey).
+func (fc *fileCtx) rewriteMapAssign(c *astutil.Cursor, n *ast.AssignStmt) {
+	if n.Tok == token.DEFINE || !fc.stmtSlotOK(c) {
+		return
+	}
+	var regs []ast.Stmt
+	for _, l := range n.Lhs {
+		ix, ok := l.(*ast.IndexExpr)
+		if !ok {
+			continue
+		}
+		t := fc.info.TypeOf(ix.X)
+		if t == nil {
+			continue
+		}
+		mt, ok := t.Underlying().(*types.Map)
+		if !ok {
+			continue
+		}
+		if b, ok := mt.Key().Underlying().(*types.Basic); ok && b.Info()&(types.IsString|types.IsInteger|types.IsFloat|types.IsBoolean) != 0 {
+			continue
+		}
+		switch ix.Index.(type) {
+		case *ast.Ident, *ast.SelectorExpr:
+		default:
+			rep.Uncontrolled = append(rep.Uncontrolled, fc.pos(n)+": map with unordered key type assigned with a non-trivial key expression")
+			continue
+		}
+		regs = append(regs, &ast.ExprStmt{X: fc.simCall("RegKey", ix.Index)})
+	}
+	if len(regs) == 0 {
+		return
+	}
+	c.Replace(&ast.BlockStmt{List: append(regs, n)})
+	count("mapassign-regkey")
 }
 
 func notBlank(e ast.Expr) bool {
